@@ -15,6 +15,47 @@
 #include <rime/component.h>
 #include <rime/messenger.h>
 
+#ifdef RIME_VERIF_HOOKS
+// verification-only instrumentation (add-only, off unless RIME_VERIF_HOOKS is
+// defined): a yield hook called at fixed cut points of the deployer/service
+// code and a task log hook. Both pointers are null by default.
+extern "C" {
+RIME_DLL extern void (*rime_verif_yield_hook)(int point);
+RIME_DLL extern void (*rime_verif_task_hook)(int event, const void* task);
+}
+enum RimeVerifYieldPoint {
+  RIME_VERIF_RUN_ENTER = 1,
+  RIME_VERIF_NEXTTASK_ENTER = 2,
+  RIME_VERIF_RUN_TASK_BODY = 3,
+  RIME_VERIF_HASPENDING_ENTER = 4,
+  RIME_VERIF_RUN_RETURN = 5,
+  RIME_VERIF_STARTWORK_TESTED = 6,
+  RIME_VERIF_STARTWORK_SPAWNED = 7,
+  RIME_VERIF_SCHEDULE_ENTER = 8,
+  RIME_VERIF_NOTIFY_ENTER = 9,
+  RIME_VERIF_NOTIFY_LOCKED = 10,
+  RIME_VERIF_GETSESSION_ACCEPTED = 11,
+  RIME_VERIF_CREATESESSION_ACCEPTED = 12,
+};
+enum RimeVerifTaskEvent {
+  RIME_VERIF_TASK_SCHEDULED = 0,
+  RIME_VERIF_TASK_RUN = 1,
+};
+#define RIME_VERIF_YIELD(point)      \
+  do {                               \
+    if (rime_verif_yield_hook)       \
+      rime_verif_yield_hook(point);  \
+  } while (0)
+#define RIME_VERIF_TASK(event, task)         \
+  do {                                       \
+    if (rime_verif_task_hook)                \
+      rime_verif_task_hook(event, task);     \
+  } while (0)
+#else
+#define RIME_VERIF_YIELD(point) ((void)0)
+#define RIME_VERIF_TASK(event, task) ((void)0)
+#endif
+
 namespace rime {
 
 class Deployer;
